@@ -151,6 +151,12 @@ struct Run : Hist
     uint64_t tStart = nowNs();
     double timerMs = 0; // the engine timer this session's race is aimed at
     char junk[64]; memset(junk, 'j', sizeof junk);
+    uint32_t peerOff = uint32_t(r.below(251));
+    auto sendEnc = [&](size_t n) { // raw plain peer -> session, position-encoded
+      unsigned char b[64]; n = std::min<size_t>(std::max<size_t>(n, 1), 64);
+      for (size_t i = 0; i < n; i++) b[i] = (unsigned char)(peerOff++ % 251);
+      (void)send(pfd, b, n, MSG_NOSIGNAL | MSG_DONTWAIT);
+    };
     switch (p.kind)
     {
     case K_OUT_PLAIN:
@@ -216,7 +222,7 @@ struct Run : Hist
       if (p.cb) { std::lock_guard<std::mutex> g(mu); planByPort[myPort] = p.cb; }
       tStart = nowNs(); timerMs = handshakeToMs;
       if (!tcpConnectTo(pfd, toTls ? l1port : l0port, 10000)) { close(pfd); pfd = -1; countL("raw_client_connect_failed"); break; }
-      if (p.kind == K_IN_PLAIN && p.earlyData) (void)send(pfd, junk, 1 + r.below(40), MSG_NOSIGNAL | MSG_DONTWAIT);
+      if (p.kind == K_IN_PLAIN && p.earlyData) sendEnc(1 + r.below(40));
       if (p.kind == K_IN_TLS_GARBAGE) (void)send(pfd, "GET / HTTP/1.0\r\n\r\n", 18, MSG_NOSIGNAL);
       if (p.kind == K_IN_TLS_CLIENT)
       {
@@ -247,9 +253,9 @@ struct Run : Hist
     actorRegs(sid, p, r);
     if (sid2 && r.chance(0.6)) actorRegs(sid2, p, r);
     const bool rm = p.rm && pfd >= 0 && !pssl && !bufSmall && (p.kind == K_OUT_PLAIN || p.kind == K_IN_PLAIN) && !isClosed(sid);
-    if (rm) readModeBefore(sid, p, r, [&](int n) { (void)send(pfd, junk, size_t(std::min(n, 64)), MSG_NOSIGNAL | MSG_DONTWAIT); });
+    if (rm) readModeBefore(sid, p, r, [&](int n) { sendEnc(size_t(n)); });
     if (p.peerData && pfd >= 0 && !pssl && (p.kind == K_OUT_PLAIN || p.kind == K_IN_PLAIN))
-      for (int i = 0, n = int(r.range(1, 3)); i < n; i++) { (void)send(pfd, junk, 1 + r.below(60), MSG_NOSIGNAL | MSG_DONTWAIT); if (r.chance(0.5)) sleepMs(double(r.below(3))); }
+      for (int i = 0, n = int(r.range(1, 3)); i < n; i++) { sendEnc(1 + r.below(60)); if (r.chance(0.5)) sleepMs(double(r.below(3))); }
     if (p.peerData && pssl) (void)SSL_write(pssl, junk, int(1 + r.below(60)));
     if (p.appData && !bufSmall) for (int i = 0, n = int(r.range(1, 3)); i < n; i++) T->send(sid, junk, 1 + r.below(60));
     if (p.appData && sid2) T->send(sid2, junk, 1 + r.below(60));
@@ -264,7 +270,7 @@ struct Run : Hist
       countL("race_attempts_close_vs_timer");
     }
     else sleepMs(p.midMs);
-    if (p.dataAtEnd && pfd >= 0 && !pssl) (void)send(pfd, junk, 1 + r.below(60), MSG_NOSIGNAL | MSG_DONTWAIT);
+    if (p.dataAtEnd && pfd >= 0 && !pssl) sendEnc(1 + r.below(60));
     const char *origin = "self";
     switch (p.end)
     {
@@ -386,13 +392,19 @@ struct Run : Hist
     if (stopping.load()) { countL("actors_not_started_before_stop"); return; }
     uint64_t sid = 0; int fd = -1; uint16_t myPort = 0;
     char junk[64]; memset(junk, 'u', sizeof junk);
+    uint32_t peerOff = uint32_t(r.below(251));
+    auto sendU = [&](uint16_t dst, size_t n) { // raw peer -> session, position-encoded across datagrams
+      unsigned char b[64]; n = std::min<size_t>(n, 64);
+      for (size_t k = 0; k < n; k++) b[k] = (unsigned char)(peerOff++ % 251);
+      udpSendTo(fd, dst, b, n);
+    };
     switch (p.kind)
     {
     case K_U_IN:
       fd = udpSocket(&myPort);
       if (fd < 0) break;
       if (p.cb) { std::lock_guard<std::mutex> g(mu); planByPort[myPort] = p.cb; }
-      for (int t = 0; t < 12 && !sid && !stopping.load(); t++) { udpSendTo(fd, l0port, junk, 1 + r.below(40)); sid = sidOfPort(myPort, 250); }
+      for (int t = 0; t < 12 && !sid && !stopping.load(); t++) { sendU(l0port, 1 + r.below(40)); sid = sidOfPort(myPort, 250); }
       break;
     case K_U_OUT:
       fd = udpSocket(&myPort);
@@ -420,13 +432,13 @@ struct Run : Hist
     if (rm)
     {
       uint16_t dst = p.kind == K_U_OUT ? T->getLocalAddress(sid).port : l0port;
-      readModeBefore(sid, p, r, [&](int n) { if (dst) udpSendTo(fd, dst, junk, size_t(std::min(n, 64))); });
+      readModeBefore(sid, p, r, [&](int n) { if (dst) sendU(dst, size_t(std::min(n, 64))); });
     }
     if (p.peerData && fd >= 0)
     {
       uint16_t dst = l0port;
       if (p.kind == K_U_OUT) dst = T->getLocalAddress(sid).port;
-      if (dst) for (int i = 0, n = int(r.range(1, 3)); i < n; i++) { udpSendTo(fd, dst, junk, r.chance(0.1) ? 0 : 1 + r.below(60)); if (r.chance(0.5)) sleepMs(double(r.below(3))); }
+      if (dst) for (int i = 0, n = int(r.range(1, 3)); i < n; i++) { sendU(dst, r.chance(0.1) ? 0 : 1 + r.below(60)); if (r.chance(0.5)) sleepMs(double(r.below(3))); }
     }
     if (p.appData) for (int i = 0, n = int(r.range(1, 3)); i < n; i++) T->send(sid, junk, 1 + r.below(60));
     if (p.kind == K_U_ICMP)
@@ -437,7 +449,7 @@ struct Run : Hist
     }
     sleepMs(p.midMs);
     const char *origin = "self";
-    if (p.dataAtEnd && fd >= 0 && p.kind != K_U_OUT) udpSendTo(fd, l0port, junk, 1 + r.below(60));
+    if (p.dataAtEnd && fd >= 0 && p.kind != K_U_OUT) sendU(l0port, 1 + r.below(60));
     switch (p.end)
     {
     case E_APP: origin = "app"; T->close(sid); if (r.chance(0.15)) T->close(sid); break;
@@ -445,7 +457,7 @@ struct Run : Hist
     case E_STOP: origin = nullptr; break;
     default: break;
     }
-    if (p.dataAtEnd && fd >= 0 && p.kind != K_U_OUT && r.chance(0.5)) udpSendTo(fd, l0port, junk, 1 + r.below(60)); // may open a new session: a new id
+    if (p.dataAtEnd && fd >= 0 && p.kind != K_U_OUT && r.chance(0.5)) sendU(l0port, 1 + r.below(60)); // may open a new session: a new id
     racyRegs(sid, p, r);
     if (rm) readModeOverlap(sid, p, r);
     if (rm && p.end == E_STOP && !stopWaitsForActors.load()) waitUntil([&] { auto it = sess.find(sid); return it != sess.end() && it->second.closes > 0; }, 60000);
